@@ -35,6 +35,7 @@ const (
 	VIface
 	VAddr
 	VFunc
+	VArr // array value [N]E: snapshot arrays Snap (one per leaf of the innermost element type, Array Int L) and the index Off of element 0 in them; nested arrays are linearised
 )
 
 type Val struct {
@@ -45,6 +46,7 @@ type Val struct {
 	Cap                 *Term
 	Tag                 *Term
 	Fields              []*Val
+	Snap                []*Term // VArr
 	Addr                *Addr
 	Fn                  *ssa.Function
 	Bind                []*Val
@@ -174,6 +176,20 @@ func scalarSortOf(t types.Type, m Mode) (*Sort, string, bool) {
 	return nil, "", false
 }
 
+// arrInner: innermost (non-array) element type of a possibly nested array type and the
+// number of such elements one value of t holds (1 for a non-array type).
+func arrInner(t types.Type) (types.Type, int64) {
+	n := int64(1)
+	for {
+		a, ok := t.Underlying().(*types.Array)
+		if !ok {
+			return t, n
+		}
+		n *= a.Len()
+		t = a.Elem()
+	}
+}
+
 // leavesOf enumerates the leaves of a value of type t.
 func leavesOf(t types.Type, m Mode) []leaf {
 	var out []leaf
@@ -205,8 +221,13 @@ func leavesOf(t types.Type, m Mode) []leaf {
 				rec(u.At(i).Type(), fmt.Sprintf("%s$%d", pre, i), depth+1)
 			}
 		case *types.Array:
-			// arrays as values are not modelled leaf-wise
-			panic("array value type not supported: " + t.String())
+			// an array value is a snapshot of (a range of) a backing array of its innermost
+			// element type: one array leaf per leaf of that type, plus the offset of element 0
+			inner, _ := arrInner(t)
+			for _, l := range leavesOf(inner, m) {
+				out = append(out, leaf{pre + l.path + "$snap", ArrayS(IntS, l.sort), "snap", t})
+			}
+			out = append(out, leaf{pre + "$soff", IntS, "int", t})
 		default:
 			panic("leavesOf: unsupported type " + t.String())
 		}
@@ -253,6 +274,12 @@ func valFromLeaves(t types.Type, m Mode, ts []*Term) *Val {
 				v.Fields = append(v.Fields, rec(u.At(i).Type()))
 			}
 			return v
+		case *types.Array:
+			inner, _ := arrInner(t)
+			n := len(leavesOf(inner, m))
+			v := &Val{K: VArr, T: t, Snap: append([]*Term(nil), ts[pos:pos+n]...), Off: ts[pos+n]}
+			pos += n + 1
+			return v
 		}
 		panic("valFromLeaves: unsupported type " + t.String())
 	}
@@ -282,6 +309,9 @@ func (v *Val) leaves() []*Term {
 			} else {
 				out = append(out, IntLit(-1))
 			}
+		case VArr:
+			out = append(out, v.Snap...)
+			out = append(out, v.Off)
 		case VAddr:
 			panic("leaves of address value")
 		}
